@@ -33,6 +33,9 @@ THEOREMS = [
     "Aio.C08.feed_eof_unpauses",
     "Aio.C08.exception_raised_by_started_reads",
     "Aio.C08.resumed_read_clean_end_after_exception",
+    "Aio.C08.resumed_read_reparks_with_exception",
+    "Aio.C08.resumed_reads_raise",
+    "Aio.C08.no_block_with_exception",
 ]
 RULE = ("operation sequences over producer ops {feed_data (sizes 0,1,2,3 and limit-1..2*limit+1), begin/end http chunk, "
         "feed_eof, set_exception, connection lost} interleaved with consumer ops {read(n), read(-1), readany, readline/"
@@ -42,6 +45,7 @@ RULE = ("operation sequences over producer ops {feed_data (sizes 0,1,2,3 and lim
         "line-oriented, flow-control boundary, error/eof heavy) plus two systematic families: set_exception/feed_eof orderings x every read API x buffered content x started/resumed, and feed_eof arriving while paused for each reason (bytes, chunk count, between the marks) with the body unread and a next reader probed on the same protocol; thorough adds all sequences of length <= 5 over two 12-op alphabets (limit 1 and 2 / limit 1), quick samples 2500 of length <= 4; limit 0 is generated too (known wedge, own signature). "
         "A case is non-trivial when at least one byte is delivered or a reader blocks; distinct by content.")
 TRUSTED_BASE = [
+    "behaviour flag waitRechecksException (does _wait() re-check _exception after a regular wake-up) is probed behaviourally from the imported source on every run and written to Generated/C08.lean; the model is parametric in it and every theorem is proved for both values (the findings C08-K2..K9 are proved counterexamples for false, resumed_reads_raise / no_block_with_exception the positive statements for true)",
     "the hand-written Lean model of StreamReader/BaseProtocol pause-resume (tied to the code by the correspondence run only)",
     "re-entrant feeding from inside resume_reading() (BaseProtocol.data_received(b'') with a paused parser) is not modelled: the protocol under test has no pending parser input",
     "one consumer coroutine at a time (the class documents concurrent readers as unsupported); cancellation of a parked reader and the deprecated unread_data() are not modelled",
@@ -54,6 +58,35 @@ ASSUMPTIONS = [
     "limit >= 1 for no_stuck_pause (limit = 0 wedges: proved counterexample limit_zero_wedges, reproduced on the real code)",
     "bytes taken by a call that then raises (LineTooLong, the installed exception, 'Connection closed') are not counted as lost by the oracle: an error ends exact delivery for that call",
 ]
+
+
+def _probe_wait_rechecks(loop):
+    """behavioural probe of `StreamReader._wait()`: park read(2) on an empty buffer, wake it with a chunk end
+    that brings no data, record an exception before it runs, resume it: does it raise that exception?"""
+    from aiohttp.streams import StreamReader
+    from aiohttp.base_protocol import BaseProtocol
+
+    class P(Exception):
+        pass
+    proto = BaseProtocol(loop, parser=_Parser())
+    proto.transport = Transport()
+    sr = StreamReader(proto, 8, loop=loop)
+    sr.begin_http_chunk_receiving()
+    sr.feed_data(b"x")
+    assert sr.read_nowait(-1) == b"x"
+    c = sr.read(2)
+    fut = c.send(None)                 # parked
+    sr.end_http_chunk_receiving()      # wakes it, no data
+    assert fut.done()
+    sr.set_exception(P())
+    try:
+        c.send(None)                   # parks again (old behaviour)
+        c.close()
+        return False
+    except P:
+        return True
+    except StopIteration:
+        return False
 
 
 def generate(repo):
@@ -69,6 +102,7 @@ def generate(repo):
         div = big // hb if hb else 0
         low_div = hb // mk(big)._low_water_chunks if mk(big)._low_water_chunks else 0
         high_mul = mk(big)._high_water // big
+        recheck = _probe_wait_rechecks(loop)
     finally:
         loop.close()
     return {"AioModel/Generated/C08.lean":
@@ -84,6 +118,9 @@ def generate(repo):
             f"def lowDiv : Nat := {low_div}\n"
             "/-- `_high_water = limit * highMul` -/\n"
             f"def highMul : Nat := {high_mul}\n"
+            "/-- probe: a reader parked in read(), woken by end_http_chunk_receiving(), with set_exception() called\n"
+            "before it resumes, raises that exception (i.e. `_wait()` re-checks `self._exception`) -/\n"
+            f"def waitRechecksException : Bool := {'true' if recheck else 'false'}\n"
             "end Aio.Gen.C08\n"}
 
 
@@ -298,6 +335,8 @@ class Oracle:
         self.exc_before_eof = False  # set_exception() arrived while the stream had not ended: it is truncated
         self.marker_after_eof = False  # begin/end chunk after feed_eof: producer misuse, after-eof clauses do not apply
         self.resumed = False         # the outcome being judged comes from a resumed (previously parked) call
+        self.blocked_with_exc = 0    # observation only (not a clause of the property): steps after which a reader
+                                     # is parked on a pending future although an exception is recorded
         self.violations = []
 
     def v(self, sig, detail):
@@ -432,6 +471,8 @@ class Oracle:
                 pend = len([b for b in self.bounds if b > max(self.pos, sr._cursor)])
                 if pend > sr._high_water_chunks and not im.tr.paused:
                     self.v("C08/backpressure/not-paused-above-chunk-high-water", f"{pend} pending chunks > {sr._high_water_chunks}, transport not paused")
+        if im.coro is not None and not im.fut.done() and sr._exception is not None:
+            self.blocked_with_exc += 1
         # a reader blocked on an empty buffer is never left with the transport paused
         if im.coro is not None and not im.fut.done() and self.connected:
             if im.tr.paused:
@@ -514,6 +555,8 @@ def run_case(case, with_oracle=True):
             orc.finish()
     finally:
         im.close()
+    if orc and orc.blocked_with_exc:
+        run_case.blocked_with_exc = getattr(run_case, "blocked_with_exc", 0) + 1
     return " ".join(projs), (orc.violations if orc else [])
 
 
@@ -782,6 +825,8 @@ def check(ctx):
                             "StreamReader step projection vs Aio.C08.step")
             else:
                 ctx.compare(case, 0, 0)
+    ctx.extra["cases_with_reader_blocked_while_exception_recorded"] = getattr(run_case, "blocked_with_exc", 0)
+    ctx.extra["wait_rechecks_exception"] = _probe_wait_rechecks(_loop())
     need = ["out:blocked", "out:chunk", "out:incomplete", "out:stop", "out:err:linetoolong", "out:err:runtime",
             "out:err:assertion", "ev:pause", "ev:resume", "op:w"]
     missing = [n for n in need if not ctx.hits.get(n)]
